@@ -91,6 +91,18 @@ CLAIMED = {
                      'unspecified (same second, sub-pixel overlap), foreign objects untouched, task terminates without raising.',
                 note='trusted: SimFS walk/rmtree/mtime semantics, simulated clock; sqlite backends outside the simulator',
                 technique='deterministic simulation: simulated clock + file system (readdir order permuted), real cleanup workers under the baton scheduler, model-based checking'),
+    'C11': dict(level='exploration', ref='DESIGN.md 6.5',
+                text='seeded seed tasks (factor-2 / sqrt2 / custom-resolution grids, non-square extents, ll/ul origin, level '
+                     'subsets, bbox / concave / multi-part coverages, meta sizes, skip_geoms_for_last_levels, progress cadence, '
+                     'per-hand-off simulated work time) run through the real seed()/TileWalker/SeedProgress/ProgressLog/ProgressStore '
+                     'with a recording pool at the hand-off; uninterrupted run compared with a brute-force shapely oracle over whole '
+                     'levels (complete, minimal up to a one-pixel band); then the same task with 1-3 seeded interruptions '
+                     '(exception or hard kill at a hand-off, at a line event of the seeding code via sys.settrace, or inside the '
+                     'progress-file write) each followed by a restart from the saved progress: union of hand-offs must cover the '
+                     'uninterrupted run, the progress file must always load.',
+                note='trusted: recording pool instead of real workers (the hand-off is the stated observation point), SimFS for the '
+                     'progress file, simulated clock; interruption points are sampled, not enumerated',
+                technique='deterministic simulation: crash/interrupt injection at seam calls and line events, simulated clock driving progress cadence, restart from durable state, brute-force reference model'),
 }
 
 NA = {
@@ -106,7 +118,7 @@ NA = {
     'C18': 'well-formedness/escaping of responses is a function of the request bytes',
 }
 
-PENDING = ['C11']
+PENDING = []
 
 
 def main():
